@@ -28,14 +28,37 @@ def kind_class(kind):
 
 
 # ---- spec -> Python ---------------------------------------------------------------------------
-def tables(leaves, universe):
-    """NDJSON lines for IOEnv.C16_TABLES: Python's str() of every leaf value, job id of every state point."""
+# text of the payload name tokens of the spec (FileToks / DirToks): unusual but legal file and directory names
+NAMES = {
+    "f_emoji": "\U0001F600.txt", "f_math": "\U0001D70E.dat", "f_cjkb": "\U00020000x", "f_ffff": "\uffffz", "f_fffd": "\ufffdz",
+    "f_eacute": "\u00e9.txt", "f_cjk": "\u4e2d.txt", "f_space": "with space.txt", "f_dot": ".hidden", "f_tilde": "~tmp", "f_tdot": "trail.",
+    "f_long": "L" * 200, "f_a": "a", "f_a_dot_b": "a.b", "f_a_space_b": "a b", "f_ab": "ab",
+    "f_before_sp": "signac_statepoint.jso", "f_after_sp": "signac_statepoint.json.bak",
+    "d_emoji": "\U0001F600d", "d_math": "\U0001D70Ed", "d_ffff": "\uffffd", "d_eacute": "\u00e9d", "d_space": "sp ace", "d_dot": ".d",
+    "d_tilde": "~d", "d_tdot": "d.", "d_long": "D" * 200, "d_b": "b", "d_b_dot_c": "b.c", "d_b_space_c": "b c", "d_bc": "bc",
+}
+# which tokens are files / directories / repeated at depth 2 is decided by the spec (Describe); set by set_payload_tokens
+FILE_TOKS, DIR_TOKS, DEEP2_TOKS = [], [], []
+
+
+def set_payload_tokens(filetoks, dirtoks, deep2toks):
+    missing = (set(filetoks) | set(dirtoks) | set(deep2toks)) - set(NAMES)
+    if missing:
+        raise core.MachineryError("the spec uses payload name tokens the harness has no text for: %s" % sorted(missing))
+    FILE_TOKS[:], DIR_TOKS[:], DEEP2_TOKS[:] = sorted(filetoks), sorted(dirtoks), sorted(deep2toks)
+
+
+def tables(leaves, universe, nametoks=()):
+    """NDJSON lines for IOEnv.C16_TABLES: Python's str() of every leaf value, job id of every state point,
+    text of every payload name token."""
     null = to_wire(None)
     lines = []
     for v in leaves:
-        lines.append({"k": "render", "u": 0, "v": to_wire(v), "r": cps(str(v))})
+        lines.append({"k": "render", "u": 0, "v": to_wire(v), "r": cps(str(v)), "tok": ""})
     for u, sp in enumerate(universe, 1):
-        lines.append({"k": "id", "u": u, "v": null, "r": cps(core.my_id(sp))})
+        lines.append({"k": "id", "u": u, "v": null, "r": cps(core.my_id(sp)), "tok": ""})
+    for t in nametoks:
+        lines.append({"k": "name", "u": 0, "v": null, "r": cps(NAMES[t]), "tok": t})
     return lines
 
 
@@ -276,6 +299,19 @@ class Source:
                     json.dump({"embedded_in": job.id, "at": "inner"}, f)
                 with open(os.path.join(inner, "payload.dat"), "w") as f:
                     f.write("payload of the embedded job directory in " + job.id)
+            if j.get("odd"):
+                # unusual but legal file and directory names, depth 1 and 2 (structure as OddFiles in the spec)
+                def put(rel, tag):
+                    fn = job.fn(rel)
+                    os.makedirs(os.path.dirname(fn), exist_ok=True)
+                    with open(fn, "wb") as f:
+                        f.write(("%s of %s\n" % (tag, job.id)).encode() + rel.encode("utf-8"))
+                for t in FILE_TOKS:
+                    put(NAMES[t], t)
+                for t in DIR_TOKS:
+                    put(NAMES[t] + "/in.txt", t)
+                for t in DEEP2_TOKS:
+                    put("odd2/" + NAMES[t], "deep " + t)
         self.workspace = self.project.workspace
         self.snap = core.snapshot(self.project.path)
         self.jobtrees = {i: files_only(core.snapshot(os.path.join(self.workspace, i))) for i in self.ids}
